@@ -1026,7 +1026,7 @@ class TrustRegion:
         )
         if x_new is None:
             sigma = 1.0
-            weights = dist_sq
+            weights = np.copy(dist_sq)
         else:
             sigma = self.models.determinants(x_new)
             weights = (
@@ -1042,7 +1042,7 @@ class TrustRegion:
                 )
                 ** 3.0
             )
-            weights[self.best_index] = -1.0  # do not remove the best point
+        weights[self.best_index] = -1.0  # do not remove the best point
         k_max = np.argmax(weights * np.abs(sigma))
         return k_max, np.sqrt(dist_sq[k_max])
 
